@@ -421,14 +421,15 @@ def run(ctx, prog):
         l_ck = roles.get(('inc' if fn.endswith('create_incremental_backup') else 'full', 'checksum'))
         ck = [l_ck] if l_ck is not None else f.var_local('checksum')
         sets = [d[0] for l_ in ck for d in f.defs.get(l_, []) if d[2] == 'assign' and 'Some' in flow.render(fv.of_rvalue(d[3]['rv'], 0, frozenset()))]
-        exp = [c.bb for c in f.calls if c.is_('core::option::Option::expect', 'core::option::Option::unwrap') and c.args and fv.of_operand(c.args[0])[0] == 'var' and fv.of_operand(c.args[0])[1] in ck]
+        exp = [c.bb for c in f.calls if c.is_('core::option::Option::expect', 'core::option::Option::unwrap') and c.args and
+               ((fv.of_operand(c.args[0])[0] == 'var' and fv.of_operand(c.args[0])[1] in ck) or (c.args[0].get('pl') and not c.args[0]['pl'].get('p') and c.args[0]['pl']['l'] in ck))]
         okm = bool(mw) and bool(sets) and all(b_ not in r for b_ in sets) and bool(exp) and all(any(f.dominates(e_, c.bb) for e_ in exp) for c in mw)
         ctx.inst('C12.R5', f.short, 'metadata written only after source verification succeeded', okm,
                  'checksum=Some(..) only past verify success: %s; metadata write dominated by checksum.expect(): %s' % (bool(sets) and all(b_ not in r for b_ in sets), bool(exp)))
         man = [c for c in f.calls if c.is_('backup::ArchiveEntry::from_bytes') and c.args and '"MANIFEST"' in flow.render(fo.of_operand(c.args[0]))]
         ctx.inst('C12.R5', f.short, 'archives the MANIFEST', bool(man), 'MANIFEST entries: %d' % len(man))
         # snapshot named by the archived manifest
-        snap_push = [c for c in f.calls if c.is_('backup::ArchiveEntry::from_path') and c.args and re.search(r'snapshot_name|latest_snapshot', flow.render(fv.of_operand(c.args[0])) + flow.render(fo.of_operand(c.args[0])))]
+        snap_push = [c for c in f.calls if c.is_('backup::ArchiveEntry::from_path') and c.args and re.search(r'snapshot_name|latest_snapshot|Legacy\.snapshot_number', flow.render(fv.of_operand(c.args[0])) + flow.render(fo.of_operand(c.args[0])))]
         reads_latest = any('Manifest.latest_snapshot' in str(s.get('rv', '')) for blk in f.blocks for s in blk['s'])
         if fn.endswith('create_incremental_backup'):
             reads_parent_snap = any('BackupMetadata.snapshot_file' in str(s.get('rv', '')) for blk in f.blocks for s in blk['s'])
@@ -459,6 +460,16 @@ def run(ctx, prog):
         ctx.missing('C12.R6', 'the segment filter closure of create_incremental_backup (calls parse_wal_file_id, returns bool): found %d' % len(sel))
     else:
         fc = sel[0]
+        # roles inside the filter closure (its pattern bindings are locals of the closure): what is parsed, the element's path, the parsed id; and the
+        # name under which it sees the parent's highest segment id (a capture is named after the captured variable)
+        util.bind_role(fc, 'name', type_rx=r'^&(?:\w+::)*String$', used_as=(r'backup::parse_wal_file_id$', 0))
+        util.bind_role(fc, 'path', type_rx=r'^&(?:\w+::)*PathBuf$', origin_rx=r'^arg:\w+\.1$')
+        util.bind_role(fc, 'file_id', type_rx=r'^u64$', origin_rx=r'^backup::parse_wal_file_id\(.*\)@Some→Some\.0$', full=True)
+        cpm = 'cap:' + re.escape(cap_of(prog, fc, roles.get(('inc', 'parent_max')), 'parent_max'))
+        # "modified" = mtime >= parent timestamp (same-second writes included): the innermost test, and the closure(s) around it — calling one of those IS
+        # asking "modified since the parent?", whatever the variable that holds the closure is called
+        mods = [b_ for b_ in fam if b_.kind == 'Closure' and b_.locals[0] == 'bool' and b_ is not fc and 'Duration::as_secs(' in flow.render(flow.Origin(b_).of_local(0))]
+        msp = set(b_.id for b_ in fam if b_.kind == 'Closure' and len(mods) == 1 and (b_ is mods[0] or mods[0].id.startswith(b_.id + '::')))
         fvv = flow.Origin(fc, stop_at_vars=True)
         t_blocks = set()
         f_blocks = set()
@@ -472,12 +483,12 @@ def run(ctx, prog):
             if t_['k'] == 'call' and t_['dest']['l'] == 0 and not t_['dest'].get('p'):
                 c_ = fc.call_at(i_)
                 args_ = [flow.render(fvv.of_operand(a)) for a in c_.args]
-                if args_ and args_[0] == 'cap:modified_since_parent' and 'var:path' in args_[-1]:
+                if args_ and (args_[0] == 'cap:modified_since_parent' or (re.match(r'^cap:\w+$', args_[0]) and c_.callee in msp)) and 'var:path' in args_[-1]:
                     m_blocks.add(i_)
                 else:
                     f_blocks.add(i_)   # any other computed answer counts as "may reject"
-        atoms = [pathsens.Atom('gt', r'^cmp\[\+ cap:parent_max - var:file_id <= -1\]$|^cmp\[\+ var:file_id - cap:parent_max >= 1\]$'),
-                 pathsens.Atom('eq', r'^cmp\[\+ cap:parent_max - var:file_id == 0\]$|^cmp\[\+ var:file_id - cap:parent_max == 0\]$'),
+        atoms = [pathsens.Atom('gt', r'^cmp\[\+ %s - var:file_id <= -1\]$|^cmp\[\+ var:file_id - %s >= 1\]$' % (cpm, cpm)),
+                 pathsens.Atom('eq', r'^cmp\[\+ %s - var:file_id == 0\]$|^cmp\[\+ var:file_id - %s == 0\]$' % (cpm, cpm)),
                  pathsens.VariantAtom('parsed', r'parse_wal_file_id\(var:name\)', 'Some')]
         terms, seen = _explore(fc, atoms, mark_blocks={'T': t_blocks, 'F': f_blocks, 'M': m_blocks})
         bad = []
@@ -512,10 +523,14 @@ def run(ctx, prog):
         flt = [c for c in inc.calls if c.callee and c.is_('re:Iterator::filter$') and any(g == fc.id for g in c.gc)]
         src = flow.render(pv.of_operand(flt[0].args[0])) if flt else ''
         ctx.inst('C12.R6', inc.short, 'the filter runs over list_wal_segments_in_dir(data_dir)', bool(flt) and 'backup::list_wal_segments_in_dir(' in src, 'source: %s' % src[:100])
-        # "modified" = mtime >= parent timestamp (same-second writes included)
-        mods = [b_ for b_ in fam if b_.kind == 'Closure' and b_.locals[0] == 'bool' and b_ is not fc and 'Duration::as_secs(' in flow.render(flow.Origin(b_).of_local(0))]
-        r_ = flow.render(flow.Origin(mods[0]).of_local(0)) if len(mods) == 1 else ''
-        ctx.inst('C12.R6', inc.short, 'modified_since_parent compares mtime ≥ parent timestamp', bool(re.match(r'^\(Duration::as_secs\(arg:\w+\) Ge cap:parent_metadata\b[^)]*\)$', r_)), 'innermost test: %s' % r_[:120])
+        # "modified" = mtime >= parent timestamp (same-second writes included).  The right-hand side is a capture: recognised by the name it carries, or by
+        # following it out to the function body, where it must be the timestamp of the decoded parent metadata (bind_roles)
+        t_ = flow.Origin(mods[0]).of_local(0) if len(mods) == 1 else None
+        r_ = flow.render(t_) if t_ else ''
+        by_name = bool(re.match(r'^\(Duration::as_secs\(arg:\w+\) Ge cap:parent_metadata\b[^)]*\)$', r_))
+        csrc = capture_source(prog, mods[0], _cap_index(t_[3])) if t_ and t_[0] == 'bin' and re.match(r'^\(Duration::as_secs\(arg:\w+\) Ge cap:\w+\)$', r_) else ''
+        by_role = roles.get(('inc', 'parent_metadata')) is not None and csrc == 'var:parent_metadata→BackupMetadata.timestamp'
+        ctx.inst('C12.R6', inc.short, 'modified_since_parent compares mtime ≥ parent timestamp', by_name or by_role, 'innermost test: %s' % r_[:120])
     # ------------------------------------------------------------------ R7 which backups a point-in-time restore applies
     ctx.rule('C12.R7', 'point-in-time chain selection: the backup list is sorted newest first; the base is the first Full with timestamp ≤ target in that order; '
                        'each hop takes the FIRST element of that list (newest) whose parent is the current backup, whose timestamp is ≤ target and which is '
@@ -525,10 +540,16 @@ def run(ctx, prog):
     if lbd is not None:
         srt = [c for c in lbd.calls if c.callee and flow.short(c.callee) == 'slice::sort_by']
         cmpb = [prog.bodies.get(g) for c in srt for g in c.gc]
-        r_ = flow.render(flow.Origin(cmpb[0]).of_local(0)) if cmpb and cmpb[0] is not None else ''
+        t_ = flow.Origin(cmpb[0]).of_local(0) if cmpb and cmpb[0] is not None else None
+        r_ = flow.render(t_) if t_ else ''
         rets = [x for x in lbd.return_blocks() if x in lbd.live_blocks()]
         okret = [x for x in rets if x not in flow.err_blocks(lbd)]
-        ctx.inst('C12.R7', lbd.short, 'sorted by timestamp, newest first, before it is returned', len(srt) == 1 and r_ == 'impls::cmp(arg:b→BackupMetadata.timestamp, arg:a→BackupMetadata.timestamp)' and
+        # descending = the SECOND parameter's timestamp compared with the first's (closure locals: _1 environment, _2 first, _3 second parameter), whatever the
+        # two parameters of the comparator are called
+        desc = r_ == 'impls::cmp(arg:b→BackupMetadata.timestamp, arg:a→BackupMetadata.timestamp)' or (
+            bool(re.match(r'^impls::cmp\(arg:\w+→BackupMetadata\.timestamp, arg:\w+→BackupMetadata\.timestamp\)$', r_)) and t_[0] == 'call' and
+            [a_[1][1] if a_[0] == 'field' and a_[1][0] == 'arg' else None for a_ in t_[2]] == [3, 2])
+        ctx.inst('C12.R7', lbd.short, 'sorted by timestamp, newest first, before it is returned', len(srt) == 1 and desc and
                  bool(rets) and not any(x in lbd.reach([0], avoid_blocks=[srt[0].bb] + sorted(flow.err_blocks(lbd))) for x in rets),
                  'comparator: %s' % r_)
     for nm in ('RestoreManager::list_backups', 'BackupManager::list_backups'):
@@ -543,17 +564,22 @@ def run(ctx, prog):
         nx = pit.var_local('next')
         nxo = flow.render(po.of_local(nx[0])) if len(nx) == 1 else ''
         fnd = [c for c in pit.calls if c.callee and re.search(r'Iterator>?::find$', c.callee)]
+        if not nx and len(fnd) == 1 and fnd[0].dest and not fnd[0].dest.get('p'):
+            nxo = flow.render(po.of_local(fnd[0].dest['l']))   # the search result is matched on directly, without a variable for the candidate
         first_match = len(fnd) == 1 and nxo.startswith("<iter::Iter<'a, T> as iterator::Iterator>::find(slice::iter(RestoreManager::list_backups(arg:self)@Continue→Continue.0), closure:")
         ctx.inst('C12.R7', pit.short, 'each hop is the first match (find) over the newest-first list', first_match, 'next = %s' % nxo[:130])
         if fnd and fnd[0].gc:
             fcl = prog.bodies.get(fnd[0].gc[0])
-            atoms = [pathsens.Atom('parent', r'^eq\[arg:\w+→BackupMetadata\.parent_id, option::Option::Some\{cap:current_id\}\]$'),
+            # (the closure sees the walk's position under the source name of that variable: looked up by capture position, see cap_of)
+            ccur = 'cap:' + re.escape(cap_of(prog, fcl, roles.get(('pit', 'current_id')), 'current_id'))
+            atoms = [pathsens.Atom('parent', r'^eq\[arg:\w+→BackupMetadata\.parent_id, option::Option::Some\{%s\}\]$' % ccur),
                      pathsens.Atom('intime', r'^cmp\[\+ arg:\w+→BackupMetadata\.timestamp - cap:timestamp <= 0\]$')]
             f_blocks = set(i_ for i_, blk in enumerate(fcl.blocks) for st in blk['s'] if st.get('rv') and st['pl']['l'] == 0 and st['rv']['k'] == 'use' and st['rv']['a'].get('k') == 'c' and st['rv']['a'].get('int') == 0)
             t_blocks = set(i_ for i_, blk in enumerate(fcl.blocks) for st in blk['s'] if st.get('rv') and st['pl']['l'] == 0 and st['rv']['k'] == 'use' and st['rv']['a'].get('k') == 'c' and st['rv']['a'].get('int') == 1)
             fv = flow.Origin(fcl, stop_at_vars=True)
             i_blocks = set(i_ for i_, blk in enumerate(fcl.blocks) if blk['t']['k'] == 'call' and blk['t']['dest']['l'] == 0 and fcl.call_at(i_).callee and fcl.call_at(i_).callee.endswith('PartialEq>::eq') and
-                           [flow.render(fv.of_operand(a)) for a in fcl.call_at(i_).args] in (['arg:b→BackupMetadata.backup_type', 'backup::BackupType::Incremental{}'],))
+                           len(fcl.call_at(i_).args) == 2 and re.match(r'^arg:\w+→BackupMetadata\.backup_type$', flow.render(fv.of_operand(fcl.call_at(i_).args[0]))) and
+                           flow.render(fv.of_operand(fcl.call_at(i_).args[1])) == 'backup::BackupType::Incremental{}')
             terms, seen = _explore(fcl, atoms, mark_blocks={'F': f_blocks, 'T': t_blocks, 'ISINC': i_blocks})
             bad = []
             for bb_, via, a_, path_ in terms:
@@ -570,11 +596,21 @@ def run(ctx, prog):
         ci = pit.var_local('current_id')
         cio = flow.render(po.of_local(ci[0])) if len(ci) == 1 else ''
         ctx.inst('C12.R7', pit.short, 'the walk moves to the found backup (current_id := found.id, starting from the base)', 'find(' in cio and '@Some→Some.0→BackupMetadata.id' in cio and 'BackupMetadata.id' in cio.split('|')[-1], 'current_id = %s' % cio[:60])
-        fb = pit.var_local('full_backup')
+        # the slot that receives the base: the Option that starts None and is set to Some(..) (bind_roles; the later `let` of the same name shadows it, so it is
+        # addressed by local number), by name when that is not found
+        fb = [roles['pit', 'base']] if roles.get(('pit', 'base')) is not None else pit.var_local('full_backup')
         fbo = flow.render(po.of_local(fb[0])) if fb else ''
         preds = [(i_, tg, p) for i_, blk in enumerate(pit.blocks) if blk['t']['k'] == 'switch' and i_ in pit.live_blocks() for tg, p in flow.switch_edge_predicates(pit, i_, pvv)]
-        base_ts = [(i_, tg) for i_, tg, p in preds if re.match(r'^cmp\[\+ var:backup→BackupMetadata\.timestamp - arg:timestamp <= 0\]$|^cmp\[\+ arg:timestamp - var:backup→BackupMetadata\.timestamp >= 0\]$', p)]
-        base_full = [(i_, tg) for i_, tg, p in preds if re.match(r'^eq\[backup::BackupType::Full\{\}, var:backup→BackupMetadata\.backup_type\]$|^eq\[var:backup→BackupMetadata\.backup_type, backup::BackupType::Full\{\}\]$', p)]
+        preds_f = [(i_, tg, p) for i_, blk in enumerate(pit.blocks) if blk['t']['k'] == 'switch' and i_ in pit.live_blocks() for tg, p in flow.switch_edge_predicates(pit, i_, po)]
+
+        def base_tests(e, ps):
+            ts = [(i_, tg) for i_, tg, p in ps if re.match(flow.cmp_rx(e + r'→BackupMetadata\.timestamp', r'arg:timestamp', '<=', 0), p)]
+            fl = [(i_, tg) for i_, tg, p in ps if re.match(r'^eq\[backup::BackupType::Full\{\}, %s→BackupMetadata\.backup_type\]$|^eq\[%s→BackupMetadata\.backup_type, backup::BackupType::Full\{\}\]$' % (e, e), p)]
+            return ts, fl
+        # the two tests on the scanned element: by the loop variable's name, else on the fully expanded predicate (an element of an iteration over list_backups(self))
+        base_ts, base_full = base_tests(r'var:backup', preds)
+        ts_f, fl_f = base_tests(r"<[^|]*?Iterator>::next\((?:slice::iter\()?RestoreManager::list_backups\(arg:self\)@Continue→Continue\.0\)?\)@Some→Some\.0", preds_f)
+        base_ts, base_full = base_ts or ts_f, base_full or fl_f
         sets = [d[0] for l_ in fb for d in pit.defs.get(l_, []) if d[2] == 'assign' and 'Some' in flow.render(pvv.of_rvalue(d[3]['rv'], 0, frozenset()))]
         r0 = pit.reach([0], avoid_edges=base_ts)
         r1 = pit.reach([0], avoid_edges=base_full)
